@@ -113,7 +113,11 @@ func runReplay(repo, verif string, con *FuncContract, o *Obligation, model strin
 		return err.Error(), false, ""
 	}
 	defer os.RemoveAll(tmp)
-	ov := map[string]interface{}{"Replace": map[string]string{filepath.Join(pkgDir, "zz_verif_replay_test.go"): driver}}
+	repl := map[string]string{filepath.Join(pkgDir, "zz_verif_replay_test.go"): driver}
+	if commonF := filepath.Join(verif, "replay", "drivers", filepath.Base(rel)+"_common_test.go"); fileExists(commonF) {
+		repl[filepath.Join(pkgDir, "zz_verif_replay_common_test.go")] = commonF
+	}
+	ov := map[string]interface{}{"Replace": repl}
 	ob, _ := json.Marshal(ov)
 	ovPath := filepath.Join(tmp, "overlay.json")
 	os.WriteFile(ovPath, ob, 0644)
@@ -169,3 +173,5 @@ func goCache() string {
 }
 
 var _ = fmt.Sprintf
+
+func fileExists(p string) bool { _, err := os.Stat(p); return err == nil }
